@@ -1,6 +1,7 @@
 package pure
 
 import (
+	"github.com/pion/turn/v5/internal/allocation"
 	"fmt"
 	"net"
 	"testing"
@@ -127,6 +128,9 @@ func runC20Inner(c *C20Case) (string, string) { //nolint:cyclop,gocyclo,maintidx
 	var attempts []int
 	tn.BindHook = func(_ string, _ net.IP, port int) { attempts = append(attempts, port) }
 	var live []*liveRes
+	var mgr *allocation.Manager
+	evens := 0
+	_ = evens
 	busy := func(kind string, port int) bool {
 		for _, p := range c.Pre {
 			if p == port {
@@ -156,6 +160,50 @@ func runC20Inner(c *C20Case) (string, string) { //nolint:cyclop,gocyclo,maintidx
 		socksBefore, lisBefore := len(n.Socks()), len(n.Listeners())
 		attempts = attempts[:0]
 		callsBefore := rnd.calls
+		if op.Kind == "evenport" {
+			// the allocation manager's use of the generator for EVEN-PORT requests: the port it
+			// picks is what the server then requests (and reserves port+1 next to it)
+			if c.V6 {
+				continue
+			}
+			if mgr == nil {
+				var merr error
+				mgr, merr = allocation.NewManager(allocation.ManagerConfig{
+					LeveledLogger: sim.NewLogger(0).NewLogger("c20"), AllocatePacketConn: gen.AllocatePacketConn,
+					AllocateListener: gen.AllocateListener, AllocateConn: gen.AllocateConn,
+				})
+				if merr != nil {
+					return "harness", merr.Error()
+				}
+			}
+			port, perr := mgr.GetRandomEvenPort()
+			for _, s := range n.Socks()[socksBefore:] {
+				if !s.IsClosed() {
+					return "leak-on-probe", fmt.Sprintf("%s: GetRandomEvenPort left %v open", ctx, s)
+				}
+			}
+			if perr != nil {
+				continue
+			}
+			evens++
+			switch {
+			case port%2 != 0 || port <= 0 || port > 65535:
+				return "even-port-odd", fmt.Sprintf("%s: GetRandomEvenPort returned %d", ctx, port)
+			case c.Gen == "range" && (port < c.MinPort || port > c.MaxPort):
+				return "port-outside-range", fmt.Sprintf("%s: GetRandomEvenPort returned %d, the configured range is [%d,%d]", ctx, port, c.MinPort, c.MaxPort)
+			case busy("udp", port):
+				return "port-shared", fmt.Sprintf("%s: GetRandomEvenPort returned port %d which a live allocation holds", ctx, port)
+			}
+			if c.Gen == "range" {
+				for _, a := range attempts {
+					if a != 0 && (a < c.MinPort || a > c.MaxPort) {
+						return "attempt-outside-range", fmt.Sprintf("%s: tried to bind port %d while looking for an even port, range is [%d,%d]", ctx, a, c.MinPort, c.MaxPort)
+					}
+				}
+			}
+
+			continue
+		}
 		var adv net.Addr
 		var err error
 		var res *liveRes
@@ -342,9 +390,11 @@ func genC20(rt *rapid.T) *C20Case {
 	c.Rand = rapid.SliceOfN(rapid.OneOf(rapid.Uint32(), rapid.SampledFrom([]uint32{0, 1, 0xFFFFFFFF, 0xFFFFFFFF, 0xFFFFFFFE})), 1, 12).Draw(rt, "rand")
 	nops := rapid.IntRange(1, 24).Draw(rt, "nops")
 	for i := 0; i < nops; i++ {
-		op := C20Op{Kind: rapid.SampledFrom([]string{"udp", "udp", "tcp", "close"}).Draw(rt, "kind")}
+		op := C20Op{Kind: rapid.SampledFrom([]string{"udp", "udp", "udp", "tcp", "tcp", "close", "close", "evenport"}).Draw(rt, "kind")}
 		if op.Kind == "close" {
 			op.Idx = rapid.IntRange(0, 8).Draw(rt, "idx")
+		} else if op.Kind == "evenport" {
+			// (GetRandomEvenPort takes no argument)
 		} else if rapid.IntRange(0, 3).Draw(rt, "hasReq") == 0 {
 			if c.Gen == "range" && rapid.IntRange(0, 1).Draw(rt, "reqInRange") == 0 {
 				op.Req = rapid.IntRange(c.MinPort, c.MaxPort).Draw(rt, "req")
